@@ -256,6 +256,8 @@ func runC08(c *Ctx) {
 		tx.BranchID = uint64(5000 + i)
 		nStmt := 1 + r.Intn(3)
 		shapes := []string{}
+		var itemOf []int
+		nItems := 0
 		for s := 0; s < nStmt; s++ {
 			sqlType := []types.SQLType{types.SQLTypeInsert, types.SQLTypeUpdate, types.SQLTypeDelete}[r.Intn(3)]
 			table := fmt.Sprintf("t%d", r.Intn(3))
@@ -288,6 +290,14 @@ func runC08(c *Ctx) {
 			var before, after *types.RecordImage
 			before = mk("before")
 			after = mk("after")
+			if len(before.Rows) == 0 && len(after.Rows) == 0 {
+				// a statement that touched no row leaves no item in the undo log
+				shapes = shapes[:len(shapes)-2]
+				itemOf = append(itemOf, -1)
+			} else {
+				itemOf = append(itemOf, nItems)
+				nItems++
+			}
 			tx.RoundImages.AppendBeofreImage(before)
 			tx.RoundImages.AppendAfterImage(after)
 		}
@@ -328,7 +338,10 @@ func runC08(c *Ctx) {
 				fmt.Sscanf(p[0], "%d", &si)
 				fmt.Sscanf(p[2], "%d", &ri)
 				fmt.Sscanf(p[3], "%d", &ci)
-				if decoded != nil && si < len(decoded.Logs) {
+				if si < len(itemOf) {
+					si = itemOf[si]
+				}
+				if decoded != nil && si >= 0 && si < len(decoded.Logs) {
 					img := decoded.Logs[si].BeforeImage
 					if p[1] == "after" {
 						img = decoded.Logs[si].AfterImage
